@@ -219,6 +219,7 @@ class SBC:
                 largest_region,
                 system=system,
                 distances=distances,
+                radii=target._radii,
                 bond_threshold=bond_threshold,
             )
 
